@@ -46,7 +46,7 @@ func (p *pool) Acquire(ctx context.Context) (v wire) {
 	p.cond.L.Lock()
 
 	// Set up ctx handling when waiting for an available connection
-	if len(p.list) == 0 && p.size == p.cap && !p.down && ctx.Err() == nil && ctx.Done() != nil {
+	if len(p.list) == 0 && p.size >= p.cap && !p.down && ctx.Err() == nil && ctx.Done() != nil {
 		poolCtx, cancel := context.WithCancelCause(ctx)
 		defer cancel(errAcquireComplete)
 
@@ -64,7 +64,7 @@ func (p *pool) Acquire(ctx context.Context) (v wire) {
 	}
 
 retry:
-	for len(p.list) == 0 && p.size == p.cap && !p.down && ctx.Err() == nil {
+	for len(p.list) == 0 && p.size >= p.cap && !p.down && ctx.Err() == nil {
 		verifYield(ctx, "pool.Acquire.wait", p, Completed{})
 		p.cond.Wait()
 		verifYield(ctx, "pool.Acquire.woken", p, Completed{})
@@ -74,6 +74,7 @@ retry:
 		deadPipe := deadFn()
 		deadPipe.error.Store(&errs{error: ctx.Err()})
 		v = deadPipe
+		p.size++ // callers hand every acquired wire back through Store, which gives the slot up again
 		p.cond.L.Unlock()
 		return v
 	}
